@@ -75,7 +75,7 @@ func newPool(rng *rand.Rand, n int) *Pool {
 	byRTag := map[uint16]*Key{}
 	used := map[*Key]bool{}
 	var all []*Key
-	for i := 0; i < n; i++ {
+	for i := 0; i < n || (i < 12*n && (len(p.carry) < 3 || len(p.sameTag) < 12 || len(p.revTag) < 6)); i++ {
 		var seed [32]byte
 		for j := 0; j < 4; j++ {
 			binary.LittleEndian.PutUint64(seed[j*8:], rng.Uint64())
